@@ -192,8 +192,6 @@ theorem table_facts {o : Op} {e : OpEntry} (h : opTable o = some e) :
   have := this o (mem_Op_all o)
   simpa [h] using this
 
-def intKind (k : Kind) : Bool := k == .IntLiteral || k == .Int32 || k == .UInt32
-
 theorem applyOp_noPanic (o : Op) (args : List Constant) (harity : arityOk o args.length = true)
     (hk : ∀ a ∈ args, a.kind ≠ .Enum) (hnot : o = .BitwiseNot → ∀ a ∈ args, intKind a.kind = true) :
     NoPanic (applyOp o args) := by
@@ -314,33 +312,8 @@ theorem evalCast_noPanic (t : Ty) (v : Constant) (hv : wf v = true) : NoPanic (e
 
 /-! ## expressions -/
 
-/-- values of the longest prefix of the operand list that evaluates (operands are evaluated left to right
-    and evaluation stops at the first failure) -/
-def prefixVals : Args → List Constant
-  | .nil => []
-  | .cons e r => match eval e with | .ok v => v :: prefixVals r | .error _ => []
-
-/-- all operands are of one enum type, or none is an enum -/
-def uniformEnums (vs : List Constant) : Bool :=
-  match vs with
-  | [] => true
-  | v :: r => r.all fun w => S.enumId? w == S.enumId? v
-
-/-- the evaluated operands are admissible for the operator: enum operands are not mixed with operands of
-    another type, and `~` is applied to an integer -/
-def operandsOk (o : Op) (vs : List Constant) : Bool :=
-  uniformEnums vs && (o != .BitwiseNot || vs.all fun v => intKind (S.strip v).kind)
-
-mutual
-/-- *well-typed operand kinds*: at every operator node the operands that evaluate are admissible -/
-def kindsOk : Expr → Bool
-  | .cast _ e => kindsOk e
-  | .op o args => kindsOkArgs args && operandsOk o (prefixVals args)
-  | _ => true
-def kindsOkArgs : Args → Bool
-  | .nil => true
-  | .cons e r => kindsOk e && kindsOkArgs r
-end
+theorem enumIdOf_eq (v : Constant) : enumIdOf v = S.enumId? v := by cases v <;> rfl
+theorem stripEnum_eq (v : Constant) : stripEnum v = S.strip v := by cases v <;> rfl
 
 def AllSame (l : List Constant) : Prop := ∀ u ∈ l, ∀ w ∈ l, S.enumId? u = S.enumId? w
 
@@ -348,7 +321,7 @@ theorem allSame_of_uniform {vs : List Constant} (h : uniformEnums vs = true) : A
   cases vs with
   | nil => intro u hu; cases hu
   | cons v r =>
-    simp only [uniformEnums, List.all_eq_true, beq_iff_eq] at h
+    simp only [uniformEnums, List.all_eq_true, beq_iff_eq, enumIdOf_eq] at h
     have key : ∀ u ∈ v :: r, S.enumId? u = S.enumId? v := by
       intro u hu
       rcases List.mem_cons.mp hu with rfl | hu
@@ -483,7 +456,7 @@ theorem eval_noPanic : ∀ (e : Expr), wfE e = true → kindsOk e = true → NoP
         · intro hbn a ha'
           obtain ⟨v, hv, rfl⟩ := List.mem_map.mp ha'
           subst hbn
-          simp [List.all_eq_true] at hnot
+          simp [List.all_eq_true, stripEnum_eq] at hnot
           exact hnot v hv
       unfold finishOp
       cases hr : applyOp o acc.vals.reverse with
